@@ -3,6 +3,7 @@
 # confirm in scratch worktree /tmp/wt/N (must be at /repo HEAD), import into /verif/seeded, run the checks against it
 ID=$1; SUF=$2; NAME=$3; NEEDS=$4; ALSO=$5
 OUT=/tmp/wt/${ID}${SUF}.out
+[ -d /tmp/wt/N ] || git -C /repo worktree add -q --detach /tmp/wt/N HEAD
 git -C /tmp/wt/N checkout -q --detach $(git -C /repo rev-parse HEAD) 2>/dev/null
 R=$(/verif/scripts/confirm_seeded.sh /tmp/wt/N $OUT | tail -1)
 echo "$ID$SUF: $R"
